@@ -154,6 +154,17 @@ def seeded(g):
     tag = gen.rand_ident(rng, 4)
     d1 = weird_name(rng)
     f1 = weird_name(rng) + rng.choice([".f90", ".F90", ".f", ".f08"])
+    twin_name = None
+    tk = rng.random()
+    if tk < 0.1:
+        # two files whose names differ only by what an over-eager URI/path conversion would erase: a
+        # literal percent escape vs its decoded form, '+' vs blank, decomposed vs precomposed accent
+        suf = rng.choice([".f90", ".F90"])
+        f1, twin_name = rng.choice([("my%20mod" + tag + suf, "my mod" + tag + suf),
+                                    ("a+b" + tag + suf, "a b" + tag + suf),
+                                    ("cafe\u0301" + tag + suf, "caf\u00e9" + tag + suf),
+                                    ("x%2Fy" + tag + suf, "x%252Fy" + tag + suf),
+                                    ("p%41" + tag + suf, "pA" + tag + suf)])
     path = f"{ROOT}/{d1}/{f1}"
     src = gen.small_program(rng, tag, nonascii=True)
     big_line = None
@@ -172,7 +183,10 @@ def seeded(g):
     style = rng.choice(["min", "lower", "over"])
     u = frames.uri_encode(path, style)
     twin = None
-    if rng.random() < 0.3 and f1.swapcase() != f1:
+    if twin_name is not None:
+        twin = f"{ROOT}/{d1}/{twin_name}"
+        tree[twin] = gen.small_program(rng, tag + "tw")
+    elif rng.random() < 0.3 and f1.swapcase() != f1:
         # a second document whose path differs only in letter case (POSIX paths are case-sensitive)
         twin = f"{ROOT}/{d1}/{f1.swapcase()}"
         tree[twin] = gen.small_program(rng, tag + "tw")
@@ -233,6 +247,15 @@ def seeded(g):
             ops.append(gen.req(rid(), meth, {"textDocument": {"uri": u},
                                              "position": {"line": k + 1, "character": col}}))
         ops.append(gen.req(rid(), "textDocument/documentSymbol", {"textDocument": {"uri": u}}))
+    if twin_name is not None and rng.random() < 0.7:
+        # the first of the two files disappears while the editor still has it open; what is said
+        # about its URI afterwards must not be about the twin
+        ops.append(gen.env_delete(path))
+        if rng.random() < 0.5:
+            ops.append(gen.note("textDocument/didClose", {"textDocument": {"uri": u}}))
+        ops.append(gen.req(rid(), "textDocument/documentSymbol", {"textDocument": {"uri": u}}))
+        ops.append(gen.req(rid(), "textDocument/hover", {"textDocument": {"uri": u},
+                                                         "position": {"line": 1, "character": 3}}))
     ops.append(gen.req(rid(), "workspace/symbol", {"query": ""}))
     ops.append({"k": "obs", "what": "uri_roundtrip",
                 "paths": [path, f"{ROOT}/{weird_name(rng)}/{weird_name(rng)}.f90", f"{CANON}/o t/%41.f90"]})
